@@ -20,6 +20,8 @@ static inline _Bool vg_stats_wf(const struct jls_statistics_s * s) {
 static inline _Bool vg_stats_empty(const struct jls_statistics_s * s) {
     return s->k == 0 && s->mean == 0.0 && s->s == 0.0 && s->min == DBL_MAX && s->max == -DBL_MAX;
 }
+#define VG_LEN_MAX (1ull << 24)   /* stated input-length bound (object size); the induction is unbounded */
+extern uint64_t vg_imin, vg_imax;   /* ghost: index of a sample attaining the minimum / maximum */
 extern uint64_t vg_k;       /* skolem witness: an arbitrary sample index */
 extern struct jls_statistics_s vg_a0, vg_b0;
 #endif
